@@ -128,11 +128,15 @@ pub fn compare_session_texts(forms: &[Sx], vm_texts: Option<&[String]>, judged: 
         Some(t) => t[..usable].to_vec(),
         None => forms[..usable].iter().map(|f| f.text()).collect(),
     };
+    // composed collection schedules are audited: a corrupted heap stops the run (reported as a
+    // panic of that form) before the corruption can abort the host
+    let audit = if matches!(case.gc, crate::kernel::GcPlan::None) { crate::kernel::AuditMode::Off } else { crate::kernel::AuditMode::EveryNth(3) };
     let run = run_case(
         &case,
         &RunOpts {
             mode: opts.mode,
             cap: opts.cap,
+            audit,
             ..Default::default()
         },
     );
